@@ -317,7 +317,14 @@ def execute(mat, ctx):
                 if not others:
                     continue
                 other = rng.choice(others)
-                s = nested(rng, owner, other, spoil=rng.random() < 0.7)
+                u = rng.random()
+                if u < 0.25:
+                    # a plain member of one candidate: it need not carry any site of the family base's own enzyme
+                    s = gen.instance(rng, owner.structure(), run_min=4, run_max=20) + gen.rand_dna(rng, rng.randint(2, 12))
+                    s = rot_left(s, rng.randrange(len(s)))
+                    ctx.count("c05_mixed_enzyme_plain_members")
+                else:
+                    s = nested(rng, owner, other, spoil=u < 0.8)
                 ctx.count("evaluations")
                 ctx.count("c05_mixed_enzyme_characterizations")
                 try:
